@@ -416,7 +416,9 @@ PROPS["C11"] = {
 PROPS["C12"] = {
     "level": "exploration",
     "rule": "cases are workloads of 2-8 client goroutines with 3-8 operations each from AddFact/RemFact/GetFact/SearchFacts/AddRule/"
-            "RemRule/EnableRule/ProcessEvent over the shared ids f1, f2, r1, r2 of ONE location (indexed or linear); written values "
+            "RemRule/EnableRule/RuleEnabled/GetRule/ProcessEvent over the shared ids f1, f2, r1, r2 of ONE location (indexed or linear); "
+            "half of the cases focus all clients on one id and one family of operations and repeat the workload 1-10 times; the "
+            "storage optionally delays writes by 20-100 us (lock convoys); written values "
             "and rule tags carry (client, sequence number). Oracle: porcupine finds a linearisation of the recorded call/return "
             "history (plus final reads of every fact id and a final event) under a sequential model of these operations; the final "
             "storage records agree with the final in-memory facts; every operation succeeds; no crash, no deadlock (30 s); a second "
